@@ -461,6 +461,52 @@ pub fn check(tier: &str) -> i32 {
     };
     rep.run_part(&m1, Duration::from_secs(if thorough { 900 } else { 40 }));
 
+    // M0: the header fields of a record, type by type: every record type x class field x TTL x section
+    let nm0 = name_menu();
+    let rdatas: Vec<wire::RData> = vec![
+        wire::RData::A("10.1.2.3".parse().unwrap()),
+        wire::RData::Aaaa("fe80::1:2".parse().unwrap()),
+        wire::RData::Ptr(nm0[2].clone()),
+        wire::RData::Srv { priority: 1, weight: 2, port: 8080, host: nm0[4].clone() },
+        wire::RData::Txt(vec![0]),
+        wire::RData::Txt(b"\x03a=b".to_vec()),
+    ];
+    // (NSEC and HINFO, which the crate only ever receives, are outside the property: its encoder
+    // writes their RDATA strings without length bytes / as dotted text - noted in DESIGN.md, not judged)
+    const CLASSES: [u16; 4] = [0x0001, 0x8001, 0x00FF, 0x80FF];
+    const TTL0: [u32; 4] = [0, 1, 4500, u32::MAX];
+    let fdims = [rdatas.len() as u64, CLASSES.len() as u64, TTL0.len() as u64, 3, 2, 2];
+    let mk = move |x: &[u64]| -> (u16, Vec<Entry>) {
+        let rec = wire::Rec::new(&nm0[1], CLASSES[x[1] as usize], TTL0[x[2] as usize], rdatas[x[0] as usize].clone());
+        let e = match x[3] {
+            0 => Entry::An(rec),
+            1 => Entry::Ns(rec),
+            _ => Entry::Ar(rec),
+        };
+        // alone, or behind a question for the same name (so that the owner is a pointer)
+        let mut es = vec![];
+        if x[5] == 1 {
+            es.push(Entry::Q(nm0[1].clone(), 255));
+        }
+        es.push(e);
+        (if x[4] == 0 { 0 } else { 0x8400 }, es)
+    };
+    let mk2 = mk.clone();
+    let m0 = FnPart {
+        name: "M0-record-header-fields".into(),
+        rule: "every record type of the property (A, AAAA, PTR, SRV, TXT x2) x class field {IN, IN+cache-flush, 255, 255+cache-flush} x TTL {0, 1, 4500, 2^32-1} x section x query/response x (alone | behind a question for the same name); type, class, cache-flush bit, TTL and RDATA must read back exactly".into(),
+        n: product(&fdims),
+        describe: Box::new(move |i| format!("{:?}", mk2(&unrank(i, &fdims)))),
+        run: Box::new(move |i, _| {
+            let mut r = CaseResult { nontrivial: true, ..Default::default() };
+            let (flags, es) = mk(&unrank(i, &fdims));
+            let refs: Vec<&Entry> = es.iter().collect();
+            check_message(flags, &refs, true, &mut r);
+            r
+        }),
+    };
+    rep.run_part(&m0, Duration::from_secs(60));
+
     // M2: overflow window
     let tails: Vec<Entry> = menu
         .iter()
